@@ -184,6 +184,18 @@ def isparamclass(cls: type) -> bool:
     return getattr(cls, "__paramclass__", False)
 
 
+def _holds_nan(params: Any) -> bool:
+    """Boolean indication of whether param-class instance `params` holds a float NaN,
+    in any of its fields or of those of the param-class instances nested in it."""
+    for name in params.__params__.keys():
+        val = getattr(params, name)
+        if isinstance(val, float) and val != val:
+            return True
+        if isparamclass(val) and not inspect.isclass(val) and _holds_nan(val):
+            return True
+    return False
+
+
 def hasparams(cls: type) -> bool:
     """Boolean indication of whether `cls` has a nonzero number of parameters.
     `HasNoParams` is a prominent, built-in example of a `paramclass` with no parameters.
